@@ -6,8 +6,12 @@ LBP code mapping and histogram (lbp.py, _lbp.cpp), `moments` (moments.py), SURF 
 import Mahotas.Model.Basic
 import Mahotas.Generated.Tables
 import Mahotas.Model.C19Tas
+import Mahotas.Model.C19Lbp
 namespace Mahotas.C19
 open Mahotas Mahotas.Generated
+
+local instance : NatCast Float := ⟨Float.ofNat⟩
+local instance : IntCast Float := ⟨Float.ofInt⟩
 
 /-! ## co-occurrence -/
 
@@ -504,6 +508,13 @@ def handle (a : Args) : String :=
       haralickQ m c
     s!"q={showFloats qs.flatten} ndirs={ndirs}"
   | "tas" => C19Tas.handle a
+  | "lbpt" =>
+    -- `lbp_transform(image, radius, points, ignore_zeros, preserve_shape=False)`: sampling, raw codes, `_lbp.map`
+    let im : Img Float := { shape := a.nats "shape", data := (a.floats "data").toArray }
+    let radius := (a.floats "radius").headD 1.0
+    let dydx := (a.floats "sin").zip (a.floats "cos")
+    let raw := C19Lbp.rawCodes C18.flF im radius dydx (a.nat "iz" == 1)
+    s!"raw={showNats raw} codes={showNats (raw.map (lbpMap dydx.length))}"
   | k => s!"error=unknown-kind-{k}"
 
 end Mahotas.C19
